@@ -23,7 +23,7 @@ RULE = ('random trees (<=40 node lines, depth<=6) of groups, typed scalar/array 
 SHARDS = {'quick': 16, 'thorough': 16}
 NCASES = {'quick': 1600, 'thorough': 50000}
 MIN_NONTRIVIAL = {'quick': 600, 'thorough': 20000}
-TIME_CAP = {'quick': 50, 'thorough': 780}
+TIME_CAP = {'quick': 300, 'thorough': 3600}
 REQUIRED_CLASSES = (
     ['type-' + M.type_kw(dt, sfx) for dt, sfx in M.TYPES] +
     ['scalar-bool', 'scalar-int', 'scalar-float', 'scalar-str', 'value-none',
